@@ -77,7 +77,7 @@ Step ==
               /\ dg' = (IF e.dag \in DOMAIN DagTable THEN e.dag ELSE dg)
               /\ kind' = (IF e.state THEN "state" ELSE "trie")
               /\ UNCHANGED <<viol, fired>>
-        [] e.ev \in {"Missing", "Process", "Commit", "CommitCrash", "Interrupt", "Finish"} ->
+        [] e.ev \in {"Missing", "Process", "Commit", "CommitFail", "CommitCrash", "Interrupt", "Finish"} ->
               LET app == { cl \in ClauseNames : Applies(cl, e) }
                   bad == { cl \in app : ~Holds(cl, e) } IN
               /\ fired' = [cl \in ClauseNames |-> fired[cl] + (IF cl \in app THEN 1 ELSE 0)]
